@@ -257,6 +257,30 @@ func VH_C19_Purity() {
 	vreach("end")
 }
 
+// C19: dates in a zone other than UTC, minutes before and after local midnight (the same UTC day, different calendar
+// days): each file carries the calendar day of its own dates, whatever was written before it.
+func VH_C19_ZonedDates() {
+	zone := time.FixedZone("east", 2*3600)
+	mk := func(h, m int, day int) time.Time { return time.Date(2021, 6, day, h, m, 0, 0, zone) }
+	dates := []time.Time{mk(23, 58, 30), mk(0, 2, 31), mk(12, 0, 30)}
+	want := []string{"210630", "210701", "210630"} // June has 30 days: the 31st is July 1st
+	a, b := choose(3), choose(3)
+	write := func(i int) []byte {
+		s := vc19List(0, 0)
+		d := dates[i]
+		s.Metadata.STLCreationDate, s.Metadata.STLRevisionDate = &d, &d
+		out, err := vc19Write(3, s)
+		vassert(err == nil && len(out) > 236, "C19 stl write succeeds")
+		return out
+	}
+	_ = write(a) // history: another file first
+	out := write(b)
+	if len(out) > 236 {
+		vassert(string(out[224:230]) == want[b] && string(out[230:236]) == want[b], "C19 zoned dates: the file carries the calendar day of its own dates, whatever was written before")
+	}
+	vreach("end")
+}
+
 // C19 H2: the STL writer takes its dates from the metadata when present and from the injectable clock otherwise.
 func VH_C19_Clock() {
 	s := vc19List(0, 0)
